@@ -1,2 +1,4 @@
 import DateutilVerif.Properties.C02
-#print axioms C02.placeholder
+#print axioms C02.convertyear_window
+#print axioms C02.convertyear_century
+#print axioms C02.adjustAmpm_table
